@@ -462,6 +462,46 @@ class Unit:
         for f in self.functions:
             if f.d.get("recovery"):
                 f.invalid = True
+        # every specialisation on the instantiation stack of an error is part of a use that does not compile: a caller
+        # whose callee could not be instantiated has no meaning either
+        chain = set()
+        for x in self.diagnostics:
+            if x["level"] != "error":
+                continue
+            for n_ in x.get("notes", []):
+                m = _re.search(r"in instantiation of (?:function template specialization|member function) '(.*)' requested here", str(n_))
+                if m:
+                    chain.add(m.group(1).replace(" ", ""))
+        if chain:
+            for f in self.functions:
+                ta = f.d.get("targs") or []
+                if not ta or f.invalid:
+                    continue
+                spec = (f.qname + "<" + ", ".join(ta) + ">").replace(" ", "")
+                if spec in chain:
+                    f.invalid = True
+                    continue
+                # clang elides defaulted class template arguments in notes: compare function name + arguments + class head
+                tail = ("::" + f.name + "<" + ", ".join(ta) + ">").replace(" ", "")
+                head = f.qname.split("<")[0]
+                if any(c.endswith(tail) and c.startswith(head) for c in chain):
+                    f.invalid = True
+            # ... and whoever calls a specialisation that could not be instantiated (clang reports the error only at the
+            # first request; later requesters are not on any diagnostic's stack)
+            changed = True
+            while changed:
+                changed = False
+                for f in self.functions:
+                    if f.invalid or not f.d.get("is_instantiation"):
+                        continue
+                    for st in f.stmts.values():
+                        c = st.get("callee") if isinstance(st, dict) else None
+                        if c and c.get("id") in self.fn_by_id:
+                            g = self.fn_by_id[c["id"]]
+                            if g.invalid and g.d.get("is_instantiation") and g.d.get("targs"):
+                                f.invalid = True
+                                changed = True
+                                break
         self.rec_by_id = {r.id: r for r in self.records}
 
     def errors(self):
